@@ -479,4 +479,115 @@ theorem next_ok {E : List (List α)} {h : Heap α} {it : It α} (hH : HeapOK E h
     ∃ f h' it', Good E h it f h' it' :=
   next_good h.length h it hH hO (Ok.below hO)
 
+/-! ### finite sequences of the specification are plain lists -/
+
+@[simp] theorem LSeq.unroll_fin (xs : List α) (n : Nat) : (LSeq.mk xs []).unroll n = xs := by
+  simp [LSeq.unroll]
+@[simp] theorem LSeq.take_fin (xs : List α) (n : Nat) : (LSeq.mk xs []).take n = xs.take n := by
+  simp [LSeq.take]
+@[simp] theorem LSeq.drop_fin (xs : List α) (n : Nat) : (LSeq.mk xs []).drop n = ⟨xs.drop n, []⟩ := by
+  simp [LSeq.drop]
+@[simp] theorem LSeq.map_fin (f : α → α) (xs : List α) : (LSeq.mk xs []).map f = ⟨xs.map f, []⟩ := by
+  simp [LSeq.map]
+@[simp] theorem LSeq.filter_fin (p : α → Bool) (xs : List α) :
+    (LSeq.mk xs []).filter p = ⟨xs.filter p, []⟩ := by
+  simp [LSeq.filter]
+@[simp] theorem LSeq.append_fin (xs ys : List α) :
+    (LSeq.mk xs []).append ⟨ys, []⟩ = ⟨xs ++ ys, []⟩ := by
+  simp [LSeq.append, LSeq.endless]
+
+/-! ### take / list() on an iterator -/
+
+/-- result of a multi-item read: for all large enough fuel the model returns `vs` and leaves
+    an iterator denoting `rest`, in a heap that still satisfies the invariant -/
+structure Read (E : List (List α)) (h : Heap α) (h' : Heap α) (it' : It α) (rest : List α) : Prop where
+  den' : den E it' = rest
+  hok : HeapOK E h'
+  ok : Ok h' it'
+  grow : Grow h h'
+
+theorem takeN_ok {E : List (List α)} : ∀ (n : Nat) (h : Heap α) (it : It α), HeapOK E h → Ok h it →
+    ∃ f h' it', (∀ f', f ≤ f' → takeN f' n h it = some (h', it', (den E it).take n)) ∧
+      Read E h h' it' ((den E it).drop n) := by
+  intro n
+  induction n with
+  | zero => intro h it hH hO; exact ⟨0, h, it, fun _ _ => by simp [takeN], ⟨by simp, hH, hO, Grow.refl h⟩⟩
+  | succ n ihn =>
+    intro h it hH hO
+    obtain ⟨f, h1, it1, G⟩ := next_ok hH hO
+    cases hd : den E it with
+    | nil =>
+      have hrun := G.run; rw [hd] at hrun
+      refine ⟨f, h1, it1, fun f' hf => ?_, ⟨by simp [G.den', hd], G.hok, G.ok, G.grow⟩⟩
+      simp [takeN, next_mono_le hf hrun]
+    | cons v r =>
+      have hrun := G.run; rw [hd] at hrun
+      obtain ⟨f2, h2, it2, run2, R2⟩ := ihn h1 it1 G.hok G.ok
+      refine ⟨max f f2, h2, it2, fun f' hf => ?_,
+        ⟨by rw [R2.den', G.den', hd]; simp, R2.hok, R2.ok, G.grow.trans R2.grow⟩⟩
+      have r1 := next_mono_le (Nat.le_trans (Nat.le_max_left f f2) hf) hrun
+      have r2 := run2 f' (Nat.le_trans (Nat.le_max_right f f2) hf)
+      simp [takeN, r1, r2, G.den', hd]
+
+theorem drainIt_ok {E : List (List α)} : ∀ (n : Nat) (h : Heap α) (it : It α), HeapOK E h → Ok h it →
+    (den E it).length = n →
+    ∃ f h' it', (∀ f' g, f ≤ f' → n < g → drainIt f' g h it = some (h', it', den E it)) ∧
+      Read E h h' it' [] := by
+  intro n
+  induction n with
+  | zero =>
+    intro h it hH hO hn
+    obtain ⟨f, h1, it1, G⟩ := next_ok hH hO
+    have hd : den E it = [] := List.eq_nil_of_length_eq_zero hn
+    have hrun := G.run; rw [hd] at hrun
+    refine ⟨f, h1, it1, fun f' g hf hg => ?_, ⟨by simp [G.den', hd], G.hok, G.ok, G.grow⟩⟩
+    obtain ⟨g, rfl⟩ : ∃ g', g = g' + 1 := ⟨g - 1, by omega⟩
+    simp [drainIt, next_mono_le hf hrun, hd]
+  | succ n ihn =>
+    intro h it hH hO hn
+    obtain ⟨f, h1, it1, G⟩ := next_ok hH hO
+    cases hd : den E it with
+    | nil => rw [hd] at hn; simp at hn
+    | cons v r =>
+      have hrun := G.run; rw [hd] at hrun
+      have hn1 : (den E it1).length = n := by rw [G.den', hd]; rw [hd] at hn; simpa using hn
+      obtain ⟨f2, h2, it2, run2, R2⟩ := ihn h1 it1 G.hok G.ok hn1
+      refine ⟨max f f2, h2, it2, fun f' g hf hg => ?_, ⟨R2.den', R2.hok, R2.ok, G.grow.trans R2.grow⟩⟩
+      obtain ⟨g, rfl⟩ : ∃ g', g = g' + 1 := ⟨g - 1, by omega⟩
+      have r1 := next_mono_le (Nat.le_trans (Nat.le_max_left f f2) hf) hrun
+      have r2 := run2 f' g (Nat.le_trans (Nat.le_max_right f f2) hf) (by omega)
+      simp [drainIt, r1, r2, G.den', hd]
+
+/-- `Stream.take` (every kind of count) on a finite iterator = `specTake` on its denotation -/
+theorem takeIt_ok {E : List (List α)} {h : Heap α} {it : It α} (hH : HeapOK E h) (hO : Ok h it) (c : Cnt) :
+    ∃ f h' it' o, (∀ f', f ≤ f' → takeIt f' h it c = some (h', it', o)) ∧
+      specTake ⟨den E it, []⟩ c = some (⟨den E it', []⟩, o) ∧ Read E h h' it' (den E it') := by
+  cases hm : takeMode c with
+  | one =>
+    obtain ⟨f, h1, it1, G⟩ := next_ok hH hO
+    cases hd : den E it with
+    | nil =>
+      have hrun := G.run; rw [hd] at hrun
+      refine ⟨f, h1, it1, .err "StopIteration", fun f' hf => ?_, ?_, ⟨rfl, G.hok, G.ok, G.grow⟩⟩
+      · simp [takeIt, hm, next_mono_le hf hrun]
+      · simp [specTake, hm, G.den', hd]
+    | cons v r =>
+      have hrun := G.run; rw [hd] at hrun
+      refine ⟨f, h1, it1, .item v, fun f' hf => ?_, ?_, ⟨rfl, G.hok, G.ok, G.grow⟩⟩
+      · simp [takeIt, hm, next_mono_le hf hrun]
+      · simp [specTake, hm, G.den', hd]
+  | all =>
+    obtain ⟨f, h1, it1, run1, R⟩ := drainIt_ok _ h it hH hO rfl
+    refine ⟨max f ((den E it).length + 1), h1, it1, .items (den E it), fun f' hf => ?_, ?_,
+      ⟨rfl, R.hok, R.ok, R.grow⟩⟩
+    · have := run1 f' f' (Nat.le_trans (Nat.le_max_left _ _) hf)
+        (Nat.lt_of_lt_of_le (Nat.lt_succ_self _) (Nat.le_trans (Nat.le_max_right _ _) hf))
+      simp [takeIt, hm, this]
+    · simp [specTake, hm, LSeq.endless, R.den']
+  | n k =>
+    obtain ⟨f, h1, it1, run1, R⟩ := takeN_ok k h it hH hO
+    refine ⟨f, h1, it1, .items ((den E it).take k), fun f' hf => ?_, ?_, ⟨rfl, R.hok, R.ok, R.grow⟩⟩
+    · simp [takeIt, hm, run1 f' hf]
+    · simp [specTake, hm, R.den']
+
 end ALV.C03
